@@ -148,7 +148,9 @@ Example c08_nonvacuous :
   exists d, In d table_riscv /\ mnemonic d = "add"%string /\ wf_desc d = true /\ in_range d [5; 6; 7] = true /\
             encode_instr d [5; 6; 7] = Ok [179; 2; 115; 0] /\
             RV32Decode.decode [179; 2; 115; 0] = Some ("add"%string, [5; 6; 7]) /\
-            (List.length rv_covered > 30)%nat.
+            Nat.ltb 30 (List.length rv_covered) = true.
 Proof.
-  exists (desc_at table_riscv 9). vm_compute. repeat split; auto. right; right; right; right; right; right; right; right; right; left. reflexivity.
+  exists (desc_at table_riscv 9). split.
+  - unfold desc_at. apply nth_In. apply Nat.ltb_lt. vm_compute. reflexivity.
+  - vm_compute. repeat split; reflexivity.
 Qed.
